@@ -7,7 +7,7 @@ from . import c05
 PROPERTY = 'C13'
 BUDGET = {'quick': {'seconds': 1500, 'xreplay_every': 100}, 'thorough': {'seconds': 6000, 'xreplay_every': 2000}}
 NONTRIVIAL = {'quick': ['timer-census', 'in-flight-timer', 'idle-no-timer', 'settled-silent', 'after-loss-silent', 'resumed', 'early-publish',
-                        'clean-reconnect', 'notification-pending', 'retry-fired', 'disconnect']}
+                        'clean-reconnect', 'notification-pending', 'retry-fired', 'disconnect', 'lost-before-connack']}
 
 KINDS = ('publish', 'subscribe', 'unsubscribe', 'PUBACK', 'PUBREC', 'PUBCOMP', 'SUBACK', 'UNSUBACK', 'advance', 'reconnect', 'disconnect')
 
@@ -143,6 +143,13 @@ def h_silence(eng, params):
                 flow.publish(qos=eng.int('qos', 1, 2))
                 census(flow, 'early publish')
                 eng.count('early-publish')
+                if params.get('lost_before_connack') and not getattr(flow, 'lbc_done', False):
+                    # the connection dies between CONNECT and CONNACK
+                    flow.lbc_done = True
+                    flow.lose(clean_close=False)
+                    census(flow, 'loss before CONNACK')
+                    eng.count('lost-before-connack')
+                    flow.open(connack=False, clean=clean)
             flow.connack(eng.int('sp', 0, 1))
             eng.count('clean-reconnect' if eng.valid(as_int(clean) == 1) else 'resumed')
         else:
@@ -177,6 +184,9 @@ def shards(tier):
                         continue
                     out.append(('silence', {'profile': profile, 'persistent': persistent, 'k': 5 if T else 4, 'maxreq': 3,
                                             'first': first, 'second': second}))
+                    if 'reconnect' in (first, second) and profile != 'subscriber' and (T or second in ('advance', 'reconnect', 'publish', 'PUBACK')):
+                        out.append(('silence', {'profile': profile, 'persistent': persistent, 'k': 4 if T else 3, 'maxreq': 3,
+                                                'first': first, 'second': second, 'lost_before_connack': True}))
     return out
 
 
